@@ -617,11 +617,15 @@ class OutputSchemaBuilder(
         def resolve(obj, _):
             return partial_serialize(getattr(obj, field_name))
 
-        factory = self.visit_with_conv(
-            # same type as in _field_serialization_method
-            Optional[field.type] if field.none_as_undefined else field.type,
-            field.serialization,
-        )
+        # the flattened getter only concerns the fields of the flattened object,
+        # not the ones of the types of these fields
+        with context_setter(self):
+            self.get_flattened = None
+            factory = self.visit_with_conv(
+                # same type as in _field_serialization_method
+                Optional[field.type] if field.none_as_undefined else field.type,
+                field.serialization,
+            )
         field_schema = get_field_schema(tp, field)
         return lambda: graphql.GraphQLField(
             factory.type,
@@ -696,7 +700,11 @@ class OutputSchemaBuilder(
                     )
 
                 args[self.aliaser(param_field.alias)] = arg_thunk
-        factory = self.visit_with_conv(field.types["return"], field.resolver.conversion)
+        with context_setter(self):
+            self.get_flattened = None
+            factory = self.visit_with_conv(
+                field.types["return"], field.resolver.conversion
+            )
         field_schema = get_method_schema(tp, field.resolver)
         return lambda: graphql.GraphQLField(
             factory.type,
